@@ -305,18 +305,22 @@ impl RdfStore {
 
     /// Returns triples with the given object.
     pub fn triples_with_object(&self, object: &Term) -> Vec<Arc<Triple>> {
-        let index = self.object_index.read();
-        if let Some(ref idx) = *index {
-            idx.get(object).cloned().unwrap_or_default()
-        } else {
-            // Fall back to full scan if object index is disabled
-            self.triples
-                .read()
-                .iter()
-                .filter(|t| t.object() == object)
-                .cloned()
-                .collect()
+        {
+            let index = self.object_index.read();
+            if let Some(ref idx) = *index {
+                return idx.get(object).cloned().unwrap_or_default();
+            }
+            // The index guard is released before the primary set is locked: writers
+            // take the primary set first and the indexes second.
         }
+
+        // Fall back to full scan if object index is disabled
+        self.triples
+            .read()
+            .iter()
+            .filter(|t| t.object() == object)
+            .cloned()
+            .collect()
     }
 
     /// Returns all unique subjects in the store.
